@@ -50,6 +50,9 @@ def well_formed(rng, d=None, n_classes=None, variant='plain', dmax=8,
     X = X * 1e3
   elif variant == 'dyadic':
     X = dyadic(rng, X)
+  elif variant == 'dyadic_fine':
+    # same exactness, 128 times finer grid: exact distance ties become rare
+    X = dyadic(rng, X, q=1024.0)
   elif variant == 'int':
     X = np.round(X * 8)
     X = _distinct_rows(rng, X, step=1.0)
